@@ -24,17 +24,20 @@ def parse_complex_csv_line(
     if isinstance(line, str):
         CRLF = '\r\n'
         empty_field_value = ''
+        quote = '"'
         if isinstance(delimiter, bytes):
             delimiter = delimiter.decode("utf-8-sig")
     else:
         CRLF = b'\r\n'
         empty_field_value = b''
+        quote = b'"'
         if isinstance(delimiter, str):
             delimiter = delimiter.encode("utf-8")
 
     field_value = empty_field_value
     fields_in_the_row = []
     flag_quotes_in_the_begining = flag_expect_delimiter_or_quotes = False
+    flag_field_is_started = False
 
     for offset, ch in enumerate(line.rstrip(CRLF)):
         if isinstance(ch, int):  # if line is bytes, each fetched item will be int
@@ -43,11 +46,12 @@ def parse_complex_csv_line(
             # The next field is started
             fields_in_the_row.append(process_field(field_value))
             flag_quotes_in_the_begining = flag_expect_delimiter_or_quotes = False
+            flag_field_is_started = False
             field_value = empty_field_value
             continue  # skip delimiter
-        elif ch == '"':
-            if len(field_value) == 0:
-                flag_quotes_in_the_begining = True
+        elif ch == quote:
+            if not flag_field_is_started:
+                flag_quotes_in_the_begining = flag_field_is_started = True
                 continue  # skip " in the begining of the field
             elif flag_quotes_in_the_begining:
                 flag_expect_delimiter_or_quotes = not flag_expect_delimiter_or_quotes # Switch flag_expect_delimiter_or_quotes
@@ -59,6 +63,7 @@ def parse_complex_csv_line(
         elif flag_expect_delimiter_or_quotes:
             raise ValueError(f"Expected delimiter '{delimiter}' or second '\"', but received '{ch}' in offset {offset} of '{line}'")
         field_value += ch
+        flag_field_is_started = True
     fields_in_the_row.append(process_field(field_value)) # Save the last field
     return fields_in_the_row
 # ******************************************************************************
